@@ -96,4 +96,163 @@ def NoRebufferAfterUpgrade : List ConnOp → Bool
   | .upgrade _ :: rest => rest.all (fun o => match o with | .setOutputBuffer _ => false | _ => true)
   | _ :: rest => NoRebufferAfterUpgrade rest
 
+
+/-! ## Round 11 (builder `proto4`): the KIND of every upgrade and `c.flateWriter`
+
+`clientV2.Flush` is `c.Writer.Flush()` followed by `c.flateWriter.Flush()` when `c.flateWriter != nil`, and a
+`flate.Writer.Flush` ALWAYS emits a sync marker (an empty stored block, ≥ 5 bytes) to the writer it was created on.
+`UpgradeDeflate` stores its writer there; which of the other upgrades drop it is the tree:
+
+* before F30: none (`UpgradeSnappy` and `UpgradeTLS` leave it);
+* F30 = /repo d6aa4e3: `UpgradeSnappy` sets `c.flateWriter = nil`, `UpgradeTLS` does not;
+* F30b: `UpgradeTLS` does too.
+
+A flate writer that belongs to a stack the client no longer decodes is *stale*: every `Flush` writes its marker to the
+layer underneath that old stack — the raw connection, or the TLS session that was current when deflate was negotiated
+(`tls.Server(c.Conn, …)` always wraps the RAW connection, so an older session's records land on the same socket). The
+client, decoding the current stack, finds these bytes between its TLS records / snappy chunks: the session is broken. -/
+
+inductive UKind
+  | tls | snappy | deflate
+deriving DecidableEq, Repr
+
+/-- `ConnOp` with the kind of every upgrade -/
+inductive KOp
+  | sendResponse (f : Frame)
+  | sendMessage (f : Frame)
+  | flush
+  | setOutputBuffer (size : Nat)
+  | upgrade (k : UKind) (size : Nat)
+  | subscribe
+deriving Repr
+
+def KOp.forget : KOp → ConnOp
+  | .sendResponse f => .sendResponse f
+  | .sendMessage f => .sendMessage f
+  | .flush => .flush
+  | .setOutputBuffer n => .setOutputBuffer n
+  | .upgrade _ n => .upgrade n
+  | .subscribe => .subscribe
+
+/-- which tree: what `SetOutputBuffer` builds the writer on, and which upgrades drop `c.flateWriter` -/
+structure Tree where
+  rebufferKeeps : Bool      -- `SetOutputBuffer`: `c.outputDest` (F30) instead of `c.Conn`
+  snappyClears : Bool       -- `UpgradeSnappy`: `c.flateWriter = nil` (F30)
+  tlsClears : Bool          -- `UpgradeTLS`: `c.flateWriter = nil` (F30b)
+deriving DecidableEq, Repr
+
+def treePreF30 : Tree := ⟨false, false, false⟩
+def treeF30 : Tree := ⟨true, true, false⟩
+def treeF30b : Tree := ⟨true, true, true⟩
+
+/-- `c.flateWriter`: installed by upgrade number `stack`, writing to `layer` (0 = the raw connection, j = the TLS
+session installed by upgrade j) -/
+structure FlateW where
+  stack : Nat
+  layer : Nat
+deriving DecidableEq, Repr
+
+/-- one sync marker written by a STALE flate writer: to `dest` (a layer), while the client decoded stack `want`,
+after `pos` plaintext bytes had been handed to the transports -/
+structure Stray where
+  dest : Nat
+  want : Nat
+  pos : Nat
+deriving DecidableEq, Repr
+
+/-- plaintext bytes handed to the transports so far -/
+def TConn.handed (c : TConn) : Nat := ((c.segs.map (·.data)).flatten).length
+
+structure KConn where
+  t : TConn
+  layer : Nat := 0                 -- `c.tlsConn`: 0 = nil, j = the session of upgrade j
+  fw : Option FlateW := none       -- `c.flateWriter`
+  stray : List Stray := []         -- markers of a stale flate writer, oldest first
+  kinds : List UKind := []         -- the upgrades performed, in order (ghost)
+deriving Repr
+
+def kconn0 (cap : Nat) : KConn := { t := tconn0 cap }
+
+/-- what `c.flateWriter.Flush()` at the end of `client.Flush()` adds when the connection is `t'` afterwards:
+nothing visible when the flate writer is the current stack's own (its marker is part of that stack's encoding) -/
+def KConn.mark (c : KConn) (t' : TConn) : List Stray :=
+  match c.fw with
+  | none => []
+  | some w => if w.stack = t'.top then [] else [⟨w.layer, t'.top, t'.handed⟩]
+
+def kstep (tr : Tree) (c : KConn) : KOp → KConn
+  | .sendResponse f =>
+    { c with t := tstep tr.rebufferKeeps c.t (.sendResponse f),
+             stray := c.stray ++ c.mark (tstep tr.rebufferKeeps c.t (.sendResponse f)) }
+  | .sendMessage f => { c with t := tstep tr.rebufferKeeps c.t (.sendMessage f) }
+  | .flush =>
+    { c with t := tstep tr.rebufferKeeps c.t .flush,
+             stray := c.stray ++ c.mark (tstep tr.rebufferKeeps c.t .flush) }
+  | .setOutputBuffer n => { c with t := tstep tr.rebufferKeeps c.t (.setOutputBuffer n) }   -- `c.Writer.Flush()` only
+  | .upgrade .tls n =>
+    if c.t.subscribed then c
+    else { c with t := tstep tr.rebufferKeeps c.t (.upgrade n), layer := c.t.top + 1,
+                  fw := if tr.tlsClears then none else c.fw, kinds := c.kinds ++ [.tls] }
+  | .upgrade .snappy n =>
+    if c.t.subscribed then c
+    else { c with t := tstep tr.rebufferKeeps c.t (.upgrade n),
+                  fw := if tr.snappyClears then none else c.fw, kinds := c.kinds ++ [.snappy] }
+  | .upgrade .deflate n =>
+    if c.t.subscribed then c
+    else { c with t := tstep tr.rebufferKeeps c.t (.upgrade n),
+                  fw := some ⟨c.t.top + 1, c.layer⟩, kinds := c.kinds ++ [.deflate] }
+  | .subscribe => { c with t := tstep tr.rebufferKeeps c.t .subscribe }
+
+def krun (tr : Tree) (c : KConn) (ops : List KOp) : KConn := ops.foldl (kstep tr) c
+
+/-- `c.flateWriter` belongs to a stack the client no longer decodes -/
+def KConn.Stale (c : KConn) : Prop := ∃ w, c.fw = some w ∧ w.stack ≠ c.t.top
+
+instance (c : KConn) : Decidable c.Stale :=
+  match h : c.fw with
+  | none => isFalse (by intro ⟨w, hw, _⟩; rw [h] at hw; cases hw)
+  | some w =>
+    if hs : w.stack = c.t.top then isFalse (by intro ⟨w', hw, hn⟩; rw [h] at hw; cases hw; exact hn hs)
+    else isTrue ⟨w, h, hs⟩
+
+/-- the literal clause with the markers: every frame byte AND every marker of a flate writer that is not part of
+the client's stack went to the transport the client decodes with -/
+def KConn.OnNegotiated (c : KConn) : Prop := c.t.OnNegotiated ∧ ∀ s ∈ c.stray, s.dest = s.want
+
+instance (c : KConn) : Decidable c.OnNegotiated := by
+  unfold KConn.OnNegotiated; infer_instance
+
+/-- what the client recovers: its session breaks at the first stray marker -/
+def KConn.seen (c : KConn) : Bytes :=
+  match c.stray with
+  | [] => c.t.seen
+  | s :: _ => c.t.seen.take s.pos
+
+/-- `c.flateWriter` (the upgrade that installed it) and the number of upgrades after the upgrades `ks` on the d6aa4e3
+tree: deflate installs one, snappy drops it, TLS keeps it -/
+def fwStep (acc : Option Nat × Nat) : UKind → Option Nat × Nat
+  | .deflate => (some (acc.2 + 1), acc.2 + 1)
+  | .snappy => (none, acc.2 + 1)
+  | .tls => (acc.1, acc.2 + 1)
+
+def fwAfter (ks : List UKind) : Option Nat × Nat := ks.foldl fwStep (none, 0)
+
+/-- which upgrade orders leave a stale flate writer on the d6aa4e3 tree (`Proofs.WireStack.staleAfter_*`: exactly
+`… deflate, tls, …, tls` with at least one TLS upgrade after the last deflate and no snappy in between) -/
+def staleAfter (ks : List UKind) : Bool :=
+  match fwAfter ks with
+  | (some k, n) => k != n
+  | (none, _) => false
+
+def KOp.isTls : KOp → Bool
+  | .upgrade .tls _ => true
+  | _ => false
+
+/-- no IDENTIFY negotiates TLS once an IDENTIFY has negotiated deflate (every go-nsq client: one IDENTIFY per
+connection, in which the server performs TLS first) -/
+def NoTlsAfterDeflate : List KOp → Bool
+  | [] => true
+  | .upgrade .deflate _ :: rest => rest.all (fun o => !o.isTls)
+  | _ :: rest => NoTlsAfterDeflate rest
+
 end Nsq.Model.WireStack
